@@ -457,6 +457,89 @@ func TestVX_C14(t *testing.T) {
 			})
 		}
 	}
+	// ---- periodic scalars: a non-zero digit at every p-th bit position over the whole width (the densest signed-digit
+	// recodings; fixed-size digit lists are sized for them), and all-ones runs, through every multiplication
+	{
+		lim := new(big.Int).Lsh(big.NewInt(1), 256)
+		var per []*big.Int
+		var pn []string
+		for p := 1; p <= 9; p++ {
+			for off := 0; off < p && off < 3; off++ {
+				for _, dig := range []int64{1, 3, 15} {
+					v := new(big.Int)
+					for i := off; i < 256; i += p {
+						v.Add(v, new(big.Int).Lsh(big.NewInt(dig), uint(i)))
+					}
+					v.Mod(v, lim)
+					per = append(per, v)
+					pn = append(pn, fmt.Sprintf("period%d+%d:d%d", p, off, dig))
+				}
+			}
+		}
+		for i, v := range per {
+			for _, ptn := range []string{"G", "seeded0"} {
+				enc := vx.Hex(encRef(pts[ptn]))
+				run(c14case{Fn: "mixed", G: vx.Hex(bytes32(big.NewInt(1))), S: vx.Hex(bytes32(v)), P: enc, Shape: ptn + ":s:" + pn[i]})
+				run(c14case{Fn: "mixed", G: vx.Hex(bytes32(v)), S: vx.Hex(bytes32(big.NewInt(5))), P: enc, Shape: ptn + ":g:" + pn[i]})
+				run(c14case{Fn: "mult", S: vx.Hex(bytes32(v)), P: enc, Shape: ptn + ":" + pn[i]})
+			}
+			run(c14case{Fn: "base", G: vx.Hex(bytes32(v)), Shape: pn[i]})
+		}
+	}
+	// ---- scalars wider than 32 bytes for the variable-point multiplication: the last 32 bytes (and, for 64-byte scalars,
+	// the first 32) run over chunks built from the 64-bit words of n: every word one of {0, n's word - 1, n's word,
+	// n's word + 1, all ones} (625 chunks: below n, equal to n, above n, with borrows arriving at equal words); prefixes
+	// 00, 01, ff and a second such chunk
+	{
+		nb := bytes32(sm2ref.N)
+		var words [4]uint64
+		for i := 0; i < 4; i++ {
+			for k := 0; k < 8; k++ {
+				words[i] = words[i]<<8 | uint64(nb[8*i+k])
+			}
+		}
+		var chunks [][]byte
+		for a := 0; a < 625; a++ {
+			c := make([]byte, 32)
+			x := a
+			for i := 0; i < 4; i++ {
+				var w uint64
+				switch x % 5 {
+				case 0:
+					w = 0
+				case 1:
+					w = words[i] - 1
+				case 2:
+					w = words[i]
+				case 3:
+					w = words[i] + 1
+				case 4:
+					w = ^uint64(0)
+				}
+				x /= 5
+				for k := 0; k < 8; k++ {
+					c[8*i+k] = byte(w >> uint(56-8*k))
+				}
+			}
+			chunks = append(chunks, c)
+		}
+		for ci, c := range chunks {
+			if !th && ci%4 != 0 && ci != 312 {
+				continue
+			}
+			for _, ptn := range []string{"G", "seeded0"} {
+				if !th && ptn == "G" && ci%8 != 0 {
+					continue
+				}
+				enc := vx.Hex(encRef(pts[ptn]))
+				for _, pre := range []string{"00", "01", "ff"} {
+					run(c14case{Fn: "mult", S: pre + vx.Hex(c), P: enc, Shape: fmt.Sprintf("%s:wide33:%s:chunk%d", ptn, pre, ci)})
+				}
+				run(c14case{Fn: "mult", S: vx.Hex(chunks[(ci*7+3)%625]) + vx.Hex(c), P: enc, Shape: fmt.Sprintf("%s:wide64:chunk%d", ptn, ci)})
+				run(c14case{Fn: "mult", S: "0001" + vx.Hex(c) + vx.Hex(chunks[(ci*11+5)%625]), P: enc, Shape: fmt.Sprintf("%s:wide66:chunk%d", ptn, ci)})
+			}
+		}
+	}
 	// object reuse sequences
 	if vx.MineIdx(3) {
 		pa, pb := pts["seeded0"], pts["seeded1"]
